@@ -96,7 +96,9 @@ def run_chain(rnd, sampler_kind, tier):
         s = Snap(seed=1)
         mkind = rnd.choice(["unit", "diag", "full"])
         mass, mstr, mdesc = make_mass(rnd, mkind, d)
-        calls.wrap(mass, "kinetic_energy")
+        korig = calls.wrap(mass, "kinetic_energy")
+        calls.wrap(mass, "generate_momentum")
+        desc_kinetic = korig
         integ = rnd.choice(["lf", "3s", "4s"])
         kwargs = dict(stepsize=rnd.choice([0.05, 0.3, 1.0, 2.5]), amount_of_steps=rnd.choice([1, 3, 7]), mass_matrix=mass,
                       integrator=integ, randomize_stepsize=rnd.random() < 0.5)
@@ -104,6 +106,7 @@ def run_chain(rnd, sampler_kind, tier):
         userstep = None
     s.rng = ScriptedRNG(fallback_seed=seed)
     s._v_calls = calls
+    s._v_kinetic = locals().get("desc_kinetic")
     with scratch() as tmp, quiet(), np.errstate(all="ignore"):
         try:
             s.sample(os.path.join(tmp, "c.h5"), dist, initial_model=q0.copy(), proposals=P, overwrite_existing_file=True,
@@ -144,7 +147,7 @@ def near(u, rate):
     return abs(u - rate) <= 1e-9 * max(abs(rate), 1e-300)
 
 
-def check_transitions(desc, trans, sampler_kind, userstep, st, findings, reqs, metas):
+def check_transitions(desc, trans, sampler_kind, userstep, st, findings, reqs, metas, kinetic=None):
     d = len(trans[0]["pre"]["model"]) if trans else 0
     for t in trans:
         pre, post = t["pre"], t["post"]
@@ -179,7 +182,18 @@ def check_transitions(desc, trans, sampler_kind, userstep, st, findings, reqs, m
                 continue
             cx = first_value(calls, "misfit", pre["model"])
             px = last_value(calls, "misfit", pre["proposed_model"])
-            ck = first_value(calls, "kinetic_energy", pre["p0"])
+            # the momentum of the current state is the one that was drawn for this proposal (recorded when generate_momentum returned it),
+            # whatever the sampler's attribute says by the time of the acceptance test
+            drawn = [r for n_, a_, r in calls if n_ == "generate_momentum"]
+            if drawn and isinstance(drawn[0], np.ndarray) and drawn[0].shape == pre["p0"].shape and not np.array_equal(drawn[0], pre["p0"], equal_nan=True):
+                findings.append(Finding("C02", "HMC: at the acceptance test current_momentum is no longer the momentum drawn for this proposal "
+                                        "(the energy of the current state is built from another vector)", {"kind": "rule", "sampler": "HMC", "what": "current momentum overwritten"},
+                                        {"oracle": "momentum", "chain": desc, "transition": pre["index"], "drawn": drawn[0], "current_momentum_at_test": pre["p0"]}))
+            p_cur = drawn[0] if drawn and isinstance(drawn[0], np.ndarray) and drawn[0].shape == pre["p0"].shape else pre["p0"]
+            ck = first_value(calls, "kinetic_energy", p_cur)
+            if ck is None and kinetic is not None:
+                with np.errstate(all="ignore"):
+                    ck = float(kinetic(p_cur.copy()))
             pk = last_value(calls, "kinetic_energy", pre["p1"])
             if None in (cx, px, ck, pk):
                 st.case(stim)
@@ -229,7 +243,7 @@ def run(tier, seed):
     for i in range(nchains):
         kind = "RWMH" if i % 2 == 0 else "HMC"
         desc, trans, sampler, userstep = run_chain(rnd, kind, tier)
-        check_transitions(desc, trans, kind, userstep, st, findings, reqs, metas)
+        check_transitions(desc, trans, kind, userstep, st, findings, reqs, metas, kinetic=getattr(sampler, "_v_kinetic", None))
         if "raised" in desc:
             st.count("sampler raised (see C06/C08)")
             continue
